@@ -1296,6 +1296,60 @@ fn c11_finalize_new() {
 }
 
 
+// =============================================================================================
+// The next request (S3): cookie -> IncomingSession::extract -> Session::new
+// =============================================================================================
+
+// @tier quick
+// @obligation the next request: the cookie value written by the real Serialize derive for an arbitrary (id, client map) is read back by the real IncomingSession::extract (real Deserialize derive) as exactly that id and map, and Session::new on it (or on no cookie) yields a state that satisfies INV and abstracts to "known, not looked at, these client values" (resp. "new, absent, empty") - the base case and the request-to-request link of the induction
+// @bounds id in {O, X}; client map over keys {a,b} x {null,false,true}; store arbitrary; with and without cookie
+// @functions WireClientState (derived Serialize + Deserialize), IncomingSession::extract, IncomingSession::from_parts, Session::new
+// @timeout 1500
+#[kani::proof]
+#[kani::unwind(5)]
+#[kani::stub(std::fmt::format, fmt_stub)]
+fn c11_new_from_cookie() {
+    let db = any_db();
+    let cfg = leak_config(any_state_config(), default_cookie());
+    let store: &'static SessionStore = Box::leak(Box::new(SessionStore::new(Mem(db))));
+    let with_cookie = nd::any_bool();
+    let cm = any_vmap();
+    let incoming = if with_cookie {
+        // what the previous response carried
+        let wire = WireClientState { session_id: sid(ID_O), user_values: Cow::Owned(to_state(&cm)) };
+        let r = serde_json::to_string(&wire);
+        assert!(r.is_ok(), "the wire state could not be serialised");
+        std::mem::forget(wire);
+        // ... comes back in the request's cookie jar
+        let jar = pavex::cookie::RequestCookies { session: Some("") };
+        let inc = IncomingSession::extract(&jar, &cfg.cookie);
+        match &inc {
+            Some(i) => {
+                assert!(i.id.inner().as_u128() == ID_O, "the id read from the cookie is not the id that was written");
+                assert!(state_ok(&i.client_state) && of_state(&i.client_state) == cm, "the client-side values read from the cookie differ from those written");
+            }
+            None => assert!(false, "a cookie written by finalize was not accepted by extract"),
+        }
+        inc
+    } else {
+        None
+    };
+    let s = Session::new(store, cfg, incoming);
+    let sh = shape_of(&s);
+    let m = abs(&sh);
+    if with_cookie {
+        assert!(sh.idk == IdK::Existing && sh.old == ID_O && sh.cur == ID_O, "a session continued from a cookie must be known under the cookie's id");
+        assert!(m.view == View::NotLooked && !m.invalidated && m.client == cm && !sh.client_updated, "a continued session starts unloaded, valid, with the cookie's client values");
+    } else {
+        assert!(sh.idk == IdK::NewlyGenerated && sh.cur == ID_F && sh.old == ID_F, "a session without cookie must get a fresh id");
+        assert!(m.view == View::Absent && !m.invalidated && vmap_is_empty(&m.client) && !sh.client_updated, "a new session starts empty");
+    }
+    assert_inv(&sh, &db.borrow());
+    kani::cover!(with_cookie && !vmap_is_empty(&cm), "cookie with client values");
+    kani::cover!(!with_cookie, "no cookie");
+    std::mem::forget(s);
+}
+
 /// Native search for a concrete failing input (see nd.rs); only built when a counterexample has to
 /// be made concrete.
 #[cfg(test)]
@@ -1308,5 +1362,5 @@ mod native_search {
     macro_rules! searches { ($($h:ident),*) => { $( #[test] fn $h() { nd::search(stringify!($h), super::$h, reset) } )* } }
     searches!(c11_step_server_get, c11_step_server_insert, c11_step_server_remove, c11_step_server_lifecycle, c11_step_client_ops,
               c11_sync_existing, c11_sync_renamed, c11_sync_new, c11_sync_race_renamed, c11_sync_race_existing,
-              c11_finalize_existing, c11_finalize_renamed, c11_finalize_new);
+              c11_finalize_existing, c11_finalize_renamed, c11_finalize_new, c11_new_from_cookie);
 }
